@@ -206,7 +206,8 @@ SiteOf(op, l) == LET j == Touch(op, l) IN
 (* ---- structural operators: insert / remove / move a line ------------------------------------------------- *)
 StructOps == {"dup_empty_between_funcs", "empty_in_body", "no_empty_after_decls", "no_empty_between_funcs",
               "empty_at_file_start", "empty_at_eof", "space_on_empty", "brace_same_line", "decl_after_stmt",
-              "decl_in_block", "comment_in_body", "typedef_in_c", "struct_in_c", "no_header"}
+              "decl_in_block", "comment_in_body", "typedef_in_c", "struct_in_c", "no_header",
+              "too_many_lines", "too_many_args", "too_many_funcs", "line_too_long"}
 SCode(op) ==
   CASE op = "dup_empty_between_funcs" -> {"CONSECUTIVE_NEWLINES"}
     [] op = "empty_in_body" -> {"EMPTY_LINE_FUNCTION"}
@@ -222,6 +223,10 @@ SCode(op) ==
     [] op = "typedef_in_c" -> {"FORBIDDEN_TYPEDEF"}
     [] op = "struct_in_c" -> {"FORBIDDEN_STRUCT"}
     [] op = "no_header" -> {"INVALID_HEADER"}
+    [] op = "too_many_lines" -> {"TOO_MANY_LINES"}
+    [] op = "too_many_args" -> {"TOO_MANY_ARGS"}
+    [] op = "too_many_funcs" -> {"TOO_MANY_FUNCS"}
+    [] op = "line_too_long" -> {"LINE_TOO_LONG"}
 
 IsEmptyBetweenFuncs(i) == prog[i].k = "empty" /\ i > 1 /\ prog[i - 1].k = "rbrace" /\ LeadTabs(prog[i - 1].items) = 0
                           /\ i < Len(prog)
@@ -240,6 +245,22 @@ SApp(op, i) ==
     [] op = "comment_in_body" -> prog[i].k = "stmt"
     [] op \in {"typedef_in_c", "struct_in_c"} -> FileKind = "c" /\ prog[i].k = "funchead" /\ i > 1 /\ prog[i - 1].k = "empty"
     [] op = "no_header" -> i = 1
+    [] op \in {"too_many_lines", "too_many_args"} -> prog[i].k = "funchead"
+    [] op = "too_many_funcs" -> FileKind = "c" /\ i = Len(prog) /\ nfun >= 1
+    [] op = "line_too_long" -> prog[i].k = "funchead" /\ i > 1 /\ prog[i - 1].k = "empty"
+
+(* the closing brace of the function whose head is line i *)
+FuncEnd(i) == CHOOSE j \in (i + 1)..Len(prog) : prog[j].k = "rbrace" /\ LeadTabs(prog[j].items) = 0
+                                                /\ \A x \in (i + 1)..(j - 1) : ~(prog[x].k = "rbrace" /\ LeadTabs(prog[x].items) = 0)
+PadLine == Line("stmt", "IsAssignation", <<TAB1, V1, L(" = ", 3), N1, L(";", 1)>>)
+RECURSIVE RepL(_, _)
+RepL(l, n) == IF n <= 0 THEN <<>> ELSE <<l>> \o RepL(l, n - 1)
+ExtraParams == <<L(", ", 2), L("int", 3), L(" ", 1), Slot("p", 2, 61), L(", ", 2), L("int", 3), L(" ", 1), Slot("p", 2, 62), L(", ", 2), L("int", 3), L(" ", 1), Slot("p", 2, 63),
+                 L(", ", 2), L("int", 3), L(" ", 1), Slot("p", 2, 64), L(", ", 2), L("int", 3), L(" ", 1), Slot("p", 2, 65)>>
+RECURSIVE MoreFuncs(_, _)
+MoreFuncs(k, n) == IF k > n THEN <<>>
+                   ELSE <<Empty, Line("funchead", "IsFuncDeclaration", <<L("int", 3), TAB1, Slot("f", 6, 70 + k), L("(void)", 6)>>),
+                          Line("lbrace", "IsBlockStart", <<L("{", 1)>>), PadLine, Line("rbrace", "IsBlockEnd", <<L("}", 1)>>)>> \o MoreFuncs(k + 1, n)
 
 Ins(i, ls) == SubSeq(prog, 1, i - 1) \o ls \o SubSeq(prog, i, Len(prog))
 Del(i) == SubSeq(prog, 1, i - 1) \o SubSeq(prog, i + 1, Len(prog))
@@ -262,6 +283,15 @@ SRw(op, i) ==
                                              Line("field", "IsVarDeclaration", <<TAB1, L("int", 3), TAB1, Slot("fld", 1, 1), L(";", 1)>>),
                                              Line("rbrace", "IsBlockEnd", <<L("};", 2)>>), Empty>>), line |-> i]
     [] op = "no_header" -> [p |-> SubSeq(prog, 3, Len(prog)), line |-> 0]      \* 0: anywhere in the file
+    [] op = "too_many_lines" -> LET j == FuncEnd(i)
+                                    have == j - i - 2
+                                    add == 26 - have
+                                IN [p |-> Ins(j, RepL(PadLine, add)), line |-> j + add]
+    [] op = "too_many_args" -> [p |-> [prog EXCEPT ![i].items = (IF IsParamVoid(prog[i].items[Len(prog[i].items) - 1])
+                                                                   THEN SubSeq(@, 1, Len(@) - 2) \o <<L("int", 3), L(" ", 1), Slot("p", 2, 60)>>
+                                                                   ELSE SubSeq(@, 1, Len(@) - 1)) \o ExtraParams \o <<L(")", 1)>>], line |-> i]
+    [] op = "too_many_funcs" -> [p |-> prog \o MoreFuncs(nfun + 1, 6), line |-> Len(prog) + 5 * (5 - nfun) + 2]
+    [] op = "line_too_long" -> [p |-> Ins(i, <<Line("comment", "IsComment", <<L("/* ", 3), Slot("txt", 76, 0), L(" */", 3)>>)>>), line |-> i]
 
 LocalSites(op) == {i \in DOMAIN prog : App(op, prog[i], i)}
 StructSites(op) == {i \in DOMAIN prog : SApp(op, i)}
